@@ -24,6 +24,9 @@ def trees_for(payload, for_search=False, flags=False):
     leaves = gen.prop_leaves(["p", "q", "r", "foo"])
     for _ in range(3000 if thorough else 400):
         trees.append(gen.build(gen.random_shape(rng, len(leaves), rng.choice([3, 4, 5, 6])), leaves))
+    leaves2 = gen.prop_leaves(["p", "q"])           # few names: repeated operands (p ^ p, q & q) next to siblings sharing them
+    for _ in range(4000 if thorough else 600):
+        trees.append(gen.build(gen.random_shape(rng, len(leaves2), rng.choice([3, 3, 4])), leaves2))
     # shared sub-terms (the same object used twice) and both operand orders
     a = gen.build(gen.random_shape(rng, len(leaves), 2), leaves)
     trees += [PP.AndPredicate(a, a), PP.OrPredicate(a, PP.NotPredicate(a)), PP.XorPredicate(PP.NotPredicate(a), a)]
